@@ -17,10 +17,6 @@ theorem mainLoopR_eq (g : Graph) (hold : List Key) (s : State) :
 theorem sweepQueueR_nil (s : State) : sweepQueueR [] s = sweepQueue s := by
   unfold sweepQueueR sweepQueue
   congr 1
-  funext st x
-  cases st.get? x.pt x.name with
-  | none => rfl
-  | some y => simp
 
 /-- ... and the main loop is the main loop of `Sched3QT` -/
 theorem mainLoopR_nil (g : Graph) (s : State) : mainLoopR g [] s = mainLoop g s := by
@@ -139,5 +135,43 @@ theorem hold_spec (gr : GraphR) (sr : StateR) (op : OpR) :
     have := List.mem_filter.mp hy
     simp only [Bool.and_eq_true] at this
     exact ⟨y, this.1, rfl, this.2.1⟩
+
+/-! ### the manual-submit flag -/
+
+/-- `prep_submit_task_jobs` + hand-over: the prepared proxy is `preparing` and its manual-submit flag is cleared -/
+theorem prepSubmit_manual {st : State} {k : Key} {y : Proxy} (h : y ∈ (prepSubmit st k).pool)
+    (hk : (y.pt, y.name) = k) (hs : (st.get? k.1 k.2).isSome = true) :
+    y.manual = false ∧ y.status = .preparing := by
+  unfold prepSubmit at h
+  split at h
+  · rename_i hx; rw [hx] at hs; cases hs
+  · rename_i x hx
+    obtain ⟨hxm, hp, hn⟩ := get?_some_mem hx
+    simp only at h
+    rcases mem_put h with ⟨rfl, _⟩ | ⟨hy, hne⟩
+    · refine ⟨rfl, ?_⟩
+      split
+      · rename_i hst; simpa using hst
+      · simp [reset_status_some]
+    · exfalso
+      apply hne
+      have e1 := congrArg Prod.fst hk
+      have e2 := congrArg Prod.snd hk
+      simp only at e1 e2
+      split <;> simp [hp, hn, e1, e2]
+
+/-- `queue_if_ready` leaves a proxy with the manual-submit flag alone ... -/
+theorem queueIfReady_manual (s : State) (x : Proxy) (h : x.manual = true) : queueIfReady s x = s := by
+  unfold queueIfReady; simp [h]
+
+/-- ... and queues a ready proxy without it -/
+theorem queueIfReady_ready (s : State) (x : Proxy) (hm : x.manual = false) (hq : x.queued = false)
+    (hr : x.runahead = false) (hrd : x.isReadyToRun = true) :
+    queueIfReady s x = (s.put (x.reset (queued := some true))).push x := by
+  unfold queueIfReady; simp [hm, hq, hr, hrd]
+
+/-- the state the release step of a main loop works on: after `compute_runahead`, `release_runahead_tasks`, the
+shutdown decision and the clock-aware sweep that queues ready tasks -/
+def beforeReleaseR (g : Graph) (hold : List Key) (s : State) : State := sweepQueueR hold (preLoop g s)
 
 end CylcModel.Sched3QR
